@@ -47,10 +47,12 @@ macro_rules! decode_dictionary_entries {
             let key = $decoder.decode()?;
             let value = $decoder.decode()?;
             if let Some(_duplicate) = $map.insert(key, value) {
-                // TODO
-                // If you insert a duplicate key into the map, it will return the old key.
-                // So, if we hit this, we return  an error, because dictionary keys must be unique.
-                todo!();
+                // Dictionary keys must be unique; a duplicate key means the encoded data is invalid.
+                let error = $crate::InvalidDataErrorKind::IllegalValue {
+                    desc: "dictionaries cannot contain duplicate keys",
+                    value: None,
+                };
+                return Err(error.into());
             }
         }
     };
